@@ -298,7 +298,9 @@ def conclude(a, cfg, tier, seed, results, native, t0):
         if cid in cfg.get("no_canary", ()):
             continue
         if not any(k.startswith(cid + "/canary.") for k in canaries) and not any(
-                r_["contract"] == cid and r_.get("crash") for r_ in results):
+                r_["contract"] == cid and (r_.get("crash") or any("unroll bound" not in u for u in r_.get("undecided_paths", [])))
+                for r_ in results):
+            # (a contract with an unsupported construct on some path is reported as undecided, not as a fault)
             faults.append("contract %s produced no canary (the refuter did not reach a normal return)" % cid)
 
     # ---- verdict
